@@ -6,6 +6,8 @@ def run(ctx: Ctx) -> int:
     from lib import e7_corpus
     total = len(e7_corpus.corpus("c19"))
     jobs = e4_check.jobs_for(ctx, "c19", total, batch=1, timeout=ctx.pick(400, 1500), total=total, harness="harness/E7_equiv.py", fn="h_equiv7")
+    KEY_W = "C19:store-of-a-whole-row-panics"
+    jobs += e4_check.jobs_for(ctx, "c19", 1, batch=1, timeout=ctx.pick(200, 600), region="whole-row-store", key=KEY_W, total=1, harness="harness/E7_equiv.py", fn="h_equiv7")
     ctx.functions_encoded = ["guppylang/std/array.py: array.__getitem__ / __setitem__ / __iter__ / copy / __new__, ArrayIter.__next__, _array_unsafe_getitem; "
                              "std/_internal/compiler/array.py: ArrayGetitemCompiler, ArraySetitemCompiler (classical get/set + unwrap panic, borrow/return for rows), NewArrayCompiler, "
                              "CopyInoutCompiler; compiler/stmt_compiler.py: _assign_array / tuple-and-array unpacking incl. starred; compiler/expr_compiler.py: visit_DesugaredArrayComp — "
